@@ -34,6 +34,7 @@ type Program struct {
 	ssa     *ssaProgram
 	sums    *Summaries
 	gram    *grammar
+	strips  map[*types.Func]bool
 }
 
 // CheckerError is a failure of the checker itself (exit 2), not a verdict.
